@@ -172,12 +172,18 @@ static void explore(const char *name, const vector<Scene> &scs, int depth, const
 // ---- full layout: ConstrainedFDLayout::run() with a ColaTopologyAddon (forces + constraints, x and y passes, many iterations) ------------
 // state clauses only (overlap, sizes, path ends, segment through node, bends on corners turning round their node), judged after EVERY
 // iteration through the TestConvergence callback and after run() returns
-static void judge_state(const Nodes &nodes, const Edges &es, const Scene &sc, const string &desc) {
+static bool segHitsRectWH(double ax, double ay, double bx, double by, const vpsc::Rectangle *r, double eps) {
+    double x0 = r->getMinX() + eps, x1 = r->getMaxX() - eps, y0 = r->getMinY() + eps, y1 = r->getMaxY() - eps; if (x0 >= x1 || y0 >= y1) return false;
+    double t0 = 0, t1 = 1, dx = bx - ax, dy = by - ay; double p[4] = {-dx, dx, -dy, dy}, q[4] = {ax - x0, x1 - ax, ay - y0, y1 - ay};
+    for (int i = 0; i < 4; i++) { if (p[i] == 0) { if (q[i] <= 0) return false; } else { double t = q[i] / p[i]; if (p[i] < 0) { if (t > t1) return false; if (t > t0) t0 = t; } else { if (t < t0) return false; if (t < t1) t1 = t; } } }
+    return t0 < t1;
+}
+static void judge_state(const Nodes &nodes, const Edges &es, const Scene &sc, const string &desc, const vector<XY> *wantSize = nullptr, bool checkSizes = true) {
     size_t N = nodes.size(); ctx.count("states");
     for (size_t i = 0; i < N; i++) for (size_t j = i + 1; j < N; j++) {
         double ox = min(nodes[i]->rect->getMaxX(), nodes[j]->rect->getMaxX()) - max(nodes[i]->rect->getMinX(), nodes[j]->rect->getMinX()), oy = min(nodes[i]->rect->getMaxY(), nodes[j]->rect->getMaxY()) - max(nodes[i]->rect->getMinY(), nodes[j]->rect->getMinY());
         if (ox > 1e-6 && oy > 1e-6) ctx.violation("node_overlap", {"layout"}, desc, mcx::fmt("nodes %zu,%zu overlap %gx%g", i, j, ox, oy)); }
-    for (auto n : nodes) if (fabs(n->rect->width() - 2 * HW) > 1e-9 || fabs(n->rect->height() - 2 * HW) > 1e-9) ctx.violation("node_resized", {"layout"}, desc);
+    for (size_t i = 0; i < N && checkSizes; i++) { double ww = wantSize ? (*wantSize)[i][0] : 2 * HW, wh = wantSize ? (*wantSize)[i][1] : 2 * HW; if (fabs(nodes[i]->rect->width() - ww) > 1e-9 || fabs(nodes[i]->rect->height() - wh) > 1e-9) ctx.violation("node_resized", {"layout"}, desc, mcx::fmt("node %zu is %gx%g, expected %gx%g", i, nodes[i]->rect->width(), nodes[i]->rect->height(), ww, wh)); }
     for (size_t ei = 0; ei < es.size(); ei++) {
         ConstEdgePoints path; es[ei]->getPath(path);
         if ((int)path.front()->node->id != sc.edges[ei].a || (int)path.back()->node->id != sc.edges[ei].b || path.front()->rectIntersect != EdgePoint::CENTRE || path.back()->rectIntersect != EdgePoint::CENTRE) ctx.violation("path_ends_changed", {"layout"}, desc);
@@ -185,7 +191,7 @@ static void judge_state(const Nodes &nodes, const Edges &es, const Scene &sc, co
         for (size_t s = 0; s + 1 < path.size(); s++) {
             double ax = path[s]->posX(), ay = path[s]->posY(), bx = path[s + 1]->posX(), by = path[s + 1]->posY();
             for (size_t v = 0; v < N; v++) { if (nodes[v]->id == path[s]->node->id || nodes[v]->id == path[s + 1]->node->id) continue; if ((int)v == sc.edges[ei].a || (int)v == sc.edges[ei].b) continue;
-                if (segHitsRect(ax, ay, bx, by, nodes[v]->rect->getCentreX(), nodes[v]->rect->getCentreY(), HW, 1e-6)) ctx.violation("segment_through_node", {"layout"}, desc, mcx::fmt("edge %zu passes through node %zu:", ei, v) + pstr); }
+                if (segHitsRectWH(ax, ay, bx, by, nodes[v]->rect, 1e-6)) ctx.violation("segment_through_node", {"layout"}, desc, mcx::fmt("edge %zu passes through node %zu:", ei, v) + pstr); }
         }
         for (size_t s = 1; s + 1 < path.size(); s++) {
             if (path[s]->rectIntersect == EdgePoint::CENTRE) { ctx.violation("bend_not_on_corner", {"layout"}, desc, pstr); continue; }
@@ -198,34 +204,42 @@ static void judge_state(const Nodes &nodes, const Edges &es, const Scene &sc, co
             if (fabs(t) > tol && !((t > 0 && c1 > -tol && c2 > -tol) || (t < 0 && c1 < tol && c2 < tol))) {
                 vector<string> kc{"layout"}; for (size_t v = 0; v < N; v++) if (nodes[v] != path[s]->node) { const vpsc::Rectangle *o = nodes[v]->rect; if (fabs(px - o->getMinX()) < 1e-9 || fabs(px - o->getMaxX()) < 1e-9 || fabs(py - o->getMinY()) < 1e-9 || fabs(py - o->getMaxY()) < 1e-9) { kc.push_back("bend_corner_aligned_with_side_of_another_node"); break; } }
                 ctx.violation("bend_turns_away_from_node", kc, desc, pstr + mcx::fmt(" turn=%g side=%g/%g", t, c1, c2)); }
-            if (segHitsRect(path[s - 1]->posX(), path[s - 1]->posY(), px, py, r->getCentreX(), r->getCentreY(), HW, 1e-6) || segHitsRect(px, py, path[s + 1]->posX(), path[s + 1]->posY(), r->getCentreX(), r->getCentreY(), HW, 1e-6)) ctx.violation("segment_through_node", {"layout"}, desc, "through the node it bends round:" + pstr);
+            if (segHitsRectWH(path[s - 1]->posX(), path[s - 1]->posY(), px, py, r, 1e-6) || segHitsRectWH(px, py, path[s + 1]->posX(), path[s + 1]->posY(), r, 1e-6)) ctx.violation("segment_through_node", {"layout"}, desc, "through the node it bends round:" + pstr);
         }
     }
 }
 struct JudgeEachIteration : cola::TestConvergence {
-    const Nodes &nodes; const Edges &es; const Scene &sc; const string &desc; int iters = 0;
+    const Nodes &nodes; const Edges &es; const Scene &sc; const string &desc; int iters = 0; const vector<XY> *want = nullptr;
     JudgeEachIteration(const Nodes &n, const Edges &e, const Scene &s, const string &d) : cola::TestConvergence(1e-4, 40), nodes(n), es(e), sc(s), desc(d) {}
-    bool operator()(const double new_stress, std::valarray<double> &X, std::valarray<double> &Y) { iters++; judge_state(nodes, es, sc, desc + mcx::fmt(" (after iteration %d)", iters)); return cola::TestConvergence::operator()(new_stress, X, Y); }
+    bool operator()(const double new_stress, std::valarray<double> &X, std::valarray<double> &Y) { iters++; judge_state(nodes, es, sc, desc + mcx::fmt(" (after iteration %d)", iters), want); return cola::TestConvergence::operator()(new_stress, X, Y); }
 };
-static void layout_case(const Scene &sc, double idealLength, int extraEdges) {
+// a resize request delivered through the PreIteration callback before the first iteration (node rz grows to 16x24 about its centre)
+struct ResizeOnce : cola::PreIteration { cola::Resizes rz; cola::Resize req; int calls = 0; ResizeOnce(const cola::Resize &r) : cola::PreIteration(rz), req(r) {} bool operator()() { rz.clear(); if (calls++ == 0) rz.push_back(req); return true; } };
+static void layout_case(const Scene &sc, double idealLength, int extraEdges, int resizeNode = -1) {
     Nodes nodes; size_t N = sc.pos.size(); vpsc::Rectangles rs;
     for (size_t i = 0; i < N; i++) { vpsc::Rectangle *r = new vpsc::Rectangle(sc.pos[i][0] - HW, sc.pos[i][0] + HW, sc.pos[i][1] - HW, sc.pos[i][1] + HW); rs.push_back(r); nodes.push_back(new Node(i, r)); }
     Edges es; vector<cola::Edge> ces;
     for (size_t k = 0; k < sc.edges.size(); k++) { const EdgeSpec &e = sc.edges[k]; EdgePoints ps; ps.push_back(new EdgePoint(nodes[e.a], EdgePoint::CENTRE)); if (e.viaNode >= 0) ps.push_back(new EdgePoint(nodes[e.viaNode], (EdgePoint::RectIntersect)e.viaCorner)); ps.push_back(new EdgePoint(nodes[e.b], EdgePoint::CENTRE)); es.push_back(new Edge(k, idealLength, ps)); ces.push_back(cola::Edge(e.a, e.b)); }
     if (extraEdges >= 1 && N >= 3) ces.push_back(cola::Edge(0, 2)); if (extraEdges >= 2 && N >= 3) ces.push_back(cola::Edge(1, 2));
-    string desc = scene_str(sc) + mcx::fmt(" ConstrainedFDLayout(idealLength=%g, %d extra graph edge(s)) + ColaTopologyAddon, run()", idealLength, extraEdges);
+    string desc = scene_str(sc) + mcx::fmt(" ConstrainedFDLayout(idealLength=%g, %d extra graph edge(s)) + ColaTopologyAddon, run()", idealLength, extraEdges) + (resizeNode >= 0 ? mcx::fmt(" with node %d resized to 16x24 before the first iteration", resizeNode) : string());
+    vector<XY> want(N, XY{2 * HW, 2 * HW}); if (resizeNode >= 0) want[resizeNode] = {16, 24};
     ctx.announce(desc); ctx.count("transitions"); ctx.count("evaluations");
     try {
-        JudgeEachIteration test(nodes, es, sc, desc);
-        cola::ConstrainedFDLayout alg(rs, ces, idealLength, cola::StandardEdgeLengths, &test);
+        JudgeEachIteration test(nodes, es, sc, desc); test.want = &want;
+        ResizeOnce pre(resizeNode >= 0 ? cola::Resize(resizeNode, sc.pos[resizeNode][0] - 8, sc.pos[resizeNode][1] - 12, 16, 24) : cola::Resize(0, 0, 0, 1, 1));
+        cola::ConstrainedFDLayout alg(rs, ces, idealLength, cola::StandardEdgeLengths, &test, resizeNode >= 0 ? &pre : nullptr);
         alg.setAvoidNodeOverlaps(true);
         ColaTopologyAddon addon(nodes, es); alg.setTopology(&addon);
         alg.run(true, true);
-        judge_state(nodes, es, sc, desc + " (after run)"); ctx.cls("layout_iterations", mcx::fmt("%d", test.iters));
-    } catch (vpsc::CriticalFailure &f) { ctx.library_abort(f.what(), desc); judge_state(nodes, es, sc, desc + " (state left by the assertion)"); }
+        judge_state(nodes, es, sc, desc + " (after run)", &want); ctx.cls("layout_iterations", mcx::fmt("%d", test.iters));
+    } catch (vpsc::CriticalFailure &f) { ctx.library_abort(f.what(), desc); judge_state(nodes, es, sc, desc + " (state left by the assertion)", nullptr, resizeNode < 0); }
     catch (...) { ctx.count("aborted_by_exception"); }
     bool bent = false; for (auto &e : sc.edges) if (e.viaNode >= 0) bent = true; if (bent) ctx.count("nontrivial");
     for (auto e : es) delete e; for (auto n : nodes) delete n;   /* node variables belong to the layout */ for (auto r : rs) delete r;
+}
+static void explore_resize(const char *name, const vector<Scene> &scs, double len) {
+    ctx.phase(mcx::fmt("%s: %zu start scenes x every node resized (10x10 -> 16x24) through PreIteration, then ConstrainedFDLayout::run with topology addon", name, scs.size()));
+    for (auto &sc : scs) for (size_t v = 0; v < sc.pos.size(); v++) { if (ctx.stopped()) return; if (!ctx.next()) continue; ctx.sample(scene_str(sc), 1); layout_case(sc, len, 0, (int)v); ctx.done_case(); }
 }
 static void explore_layout(const char *name, const vector<Scene> &scs, const vector<double> &lens) {
     ctx.phase(mcx::fmt("%s: %zu start scenes x ideal lengths x 0..2 extra graph edges, full ConstrainedFDLayout::run with topology addon", name, scs.size()));
@@ -243,6 +257,7 @@ int main(int argc, char **argv) {
     explore("4 abutting nodes on 3x3 cells, one edge", scenes4abut(3, 3), 1, {0, 10, 20});
     explore_layout("3 nodes, edge bent round node 2", scenes3(true), {15, 45}); explore_layout("3 nodes, straight edge", scenes3(false), {25});
     explore_layout("4 nodes, edge bent round node 2, node 3 free", scenes4bent(), {15, 45});
+    explore_resize("3 nodes, edge bent round node 2", scenes3(true), 30); explore_resize("3 nodes, straight edge", scenes3(false), 30);
     if (T) { explore_layout("3 nodes, straight edge", scenes3(false), {10, 60}); explore_layout("4 nodes, two straight edges", scenes4(), {15, 45}); explore_pairs("4 abutting nodes on 4x4 cells, one edge", scenes4abut(4, 4), {0, 10, 20, 30}); explore("4 abutting nodes on 3x3 cells, one edge", scenes4abut(3, 3), 2, {0, 10, 20});
              explore("3 nodes, straight edge", scenes3(false), 3, {0, 20, 40, 60}); explore("3 nodes, edge bent round node 2", scenes3(true), 3, {0, 20, 40, 60}); }
     return ctx.finish();
